@@ -32,6 +32,12 @@ void h_vse(void)
       __CPROVER_assert(gr_src == ((gr_bit & 1) ? &s2 : &s), "C04: the bit selects which stack is re-mixed with the received secret");
       __CPROVER_assert(gr_ss_size == s.stack.size && gr_src_size == s.stack.size, "C04/C12: the received secret has the size of the stacks");
       __CPROVER_assert(gr_hash_out == in.tok[2 * ghost_r] && gr_hash_in == UF(acc_endl)(gr_remix_acc), "C04: the hash of the WHOLE re-mixed stack equals the commitment");
+      /* the witness the verifier re-mixes with is a permutation: no source card is used twice (duplicated) and, the
+       * sizes being equal, none is dropped (ghost_i, ghost_i2: two arbitrary positions) */
+      if (ghost_i < gr_ss_size)
+        __CPROVER_assert(gr_ss_first[ghost_i] < gr_ss_size, "C04: every index of the received stack secret designates a card of the stack");
+      if (ghost_i < gr_ss_size && ghost_i2 < gr_ss_size && ghost_i != ghost_i2)
+        __CPROVER_assert(gr_ss_first[ghost_i] != gr_ss_first[ghost_i2], "C04: the received stack secret uses no source card twice (bijection)");
       if (cyclic && ghost_i < gr_ss_size)
         __CPROVER_assert(gr_ss_first[ghost_i] == (gr_ss_first[0] + ghost_i) % gr_ss_size, "C04: a claimed rotation is a cyclic shift");
     }
